@@ -38,6 +38,53 @@ theorem prodU_succ (g : Rng) (k : Nat) : prodU g (k + 1) = prodU g k * uAt g k :
 
 theorem uAt_mem (g : Rng) (i : Nat) : 0 ≤ uAt g i ∧ uAt g i < 1 := f64_mem _
 
+theorem f64_at (g : Rng) (c : Nat) : (stAfter g c).f64 (α := ℝ) = (uAt g c, stAfter g (c + 1)) := rfl
+
+/-! ### the redraw loop `while u == 0. { u = draw() }` (repair F53) on the raw uniform stream -/
+
+/-- If the loop, started after `c` draws, returns, it returns the first non-zero uniform of the stream from index `c` on
+and the state right after that draw. -/
+theorem redraw_f64_spec (g : Rng) (fuel : Nat) : ∀ (c : Nat) (u : ℝ) (g' : Rng),
+    redrawNonzero (fun g => g.f64 (α := ℝ)) fuel (stAfter g c) = some (u, g') →
+      ∃ k, c ≤ k ∧ k < c + fuel ∧ (∀ j, c ≤ j → j < k → uAt g j = 0) ∧ uAt g k ≠ 0 ∧ u = uAt g k ∧ g' = stAfter g (k + 1) := by
+  induction fuel with
+  | zero => intro c u g' h; simp [redrawNonzero] at h
+  | succ f ih =>
+    intro c u g' h
+    simp only [redrawNonzero, f64_at] at h
+    by_cases h0 : uAt g c = 0
+    · simp only [h0, beq_self_eq_true, if_true] at h
+      obtain ⟨k, h1, h2, h3, h4, h5, h6⟩ := ih (c + 1) u g' h
+      refine ⟨k, by omega, by omega, ?_, h4, h5, h6⟩
+      intro j hcj hjk
+      by_cases hj : j = c
+      · subst hj; exact h0
+      · exact h3 j (by omega) hjk
+    · have hb : (uAt g c == 0) = false := by simpa using h0
+      simp only [hb] at h
+      simp at h
+      exact ⟨c, le_refl _, by omega, fun j h1 h2 => absurd h2 (by omega), h0, h.1.symm, h.2.symm⟩
+
+/-- Termination: the loop ends at the first state whose uniform is not zero (fuel permitting). -/
+theorem redraw_f64_complete (g : Rng) (fuel : Nat) : ∀ (c k : Nat), c ≤ k → k - c < fuel →
+    (∀ j, c ≤ j → j < k → uAt g j = 0) → uAt g k ≠ 0 →
+    redrawNonzero (fun g => g.f64 (α := ℝ)) fuel (stAfter g c) = some (uAt g k, stAfter g (k + 1)) := by
+  induction fuel with
+  | zero => intro c k _ h; omega
+  | succ f ih =>
+    intro c k hck hf hz hnz
+    simp only [redrawNonzero, f64_at]
+    by_cases hc : c = k
+    · subst hc
+      have hb : (uAt g c == 0) = false := by simpa using hnz
+      simp [hb]
+    · have h0 : uAt g c = 0 := hz c (le_refl _) (by omega)
+      simp only [h0, beq_self_eq_true, if_true]
+      exact ih (c + 1) k (by omega) (by omega) (fun j h1 h2 => hz j (by omega) h2) hnz
+
+/-- `Uniform(0,1).sample()` over the reals is the raw uniform (as functions). -/
+theorem uniformF_unit_fun : UniformF.sample (0 : ℝ) 1 = fun g => g.f64 (α := ℝ) := funext uniformF_unit
+
 /-! ### Poisson, multiplication method -/
 
 theorem multLoop_spec (limit : ℝ) (g : Rng) (fuel : Nat) : ∀ (c k : Nat) (g' : Rng),
@@ -165,5 +212,63 @@ theorem invLoop_spec (n : Nat) (p : ℝ) (h0 : 0 < p) (h1 : p < 1) (u : ℝ) (fu
       refine ⟨le_refl _, fun j h1 h2 => absurd h2 (by omega), ?_⟩
       have := not_lt.mp hlt
       linarith
+
+/-- Termination of the inversion loop: it stops at the first `k` with `u ≤ F(k)` (fuel permitting). -/
+theorem invLoop_complete (n : Nat) (p : ℝ) (h0 : 0 < p) (h1 : p < 1) (u : ℝ) (fuel : Nat) : ∀ (x k : Nat), x ≤ k → k - x < fuel →
+    (∀ j, x ≤ j → j < k → binCDF n p j < u) → u ≤ binCDF n p k →
+    Binomial.invLoop (((n : ℝ) + 1) * (p / (1 - p))) (p / (1 - p)) fuel
+        (u - (binCDF n p x - binTerm n p x)) (binTerm n p x) x = some k := by
+  induction fuel with
+  | zero => intro x k _ h; omega
+  | succ f ih =>
+    intro x k hxk hf hb ha
+    simp only [Binomial.invLoop]
+    by_cases hx : x = k
+    · subst hx
+      have : ¬ (binTerm n p x < u - (binCDF n p x - binTerm n p x)) := by
+        intro h; linarith
+      simp [this]
+    · have hlt : binTerm n p x < u - (binCDF n p x - binTerm n p x) := by
+        have := hb x (le_refl _) (by omega); linarith
+      simp only [hlt, if_true]
+      have e1 : u - (binCDF n p x - binTerm n p x) - binTerm n p x
+          = u - (binCDF n p (x + 1) - binTerm n p (x + 1)) := by rw [binCDF_succ]; ring
+      rw [e1, ← binTerm_succ n p h0 h1 x]
+      exact ih (x + 1) k (by omega) (by omega) (fun j h2 h3 => hb j (by omega) h3) ha
+
+/-! ### the uniforms are bounded away from 1: running products tend to 0 -/
+
+/-- `alea::f64() ≤ 1 - 2⁻⁵³` -/
+theorem uAt_le (g : Rng) (i : Nat) : uAt g i ≤ 1 - 1 / 2 ^ 53 := by
+  show ((stAfter g i).f64 (α := ℝ)).1 ≤ _
+  rw [f64_eq]
+  have h := Rng.f53_lt (stAfter g i)
+  have h' : (((stAfter g i).f53).1 : ℝ) ≤ 2 ^ 53 - 1 := by
+    have : ((stAfter g i).f53).1 + 1 ≤ 2 ^ 53 := h
+    have : ((((stAfter g i).f53).1 + 1 : ℕ) : ℝ) ≤ ((2 ^ 53 : ℕ) : ℝ) := by exact_mod_cast this
+    push_cast at this; linarith
+  have hp : (0 : ℝ) < ((2 ^ 53 : ℕ) : ℝ) := by positivity
+  rw [div_le_iff₀ hp]
+  push_cast
+  nlinarith
+
+theorem prodU_nonneg (g : Rng) (k : Nat) : 0 ≤ prodU g k :=
+  Finset.prod_nonneg fun i _ => (uAt_mem g i).1
+
+theorem prodU_le_pow (g : Rng) (k : Nat) : prodU g k ≤ (1 - 1 / 2 ^ 53 : ℝ) ^ k := by
+  induction k with
+  | zero => simp [prodU]
+  | succ k ih =>
+    rw [prodU_succ, pow_succ]
+    exact mul_le_mul ih (uAt_le g k) (uAt_mem g k).1 (by positivity)
+
+/-- for every positive limit some running product of the stream is below it -/
+theorem exists_prodU_le (g : Rng) (limit : ℝ) (hl : 0 < limit) : ∃ k, prodU g (k + 1) ≤ limit := by
+  obtain ⟨n, hn⟩ := exists_pow_lt_of_lt_one hl (show (1 - 1 / 2 ^ 53 : ℝ) < 1 by norm_num)
+  refine ⟨n, ?_⟩
+  have h1 := prodU_le_pow g (n + 1)
+  have h2 : (1 - 1 / 2 ^ 53 : ℝ) ^ (n + 1) ≤ (1 - 1 / 2 ^ 53 : ℝ) ^ n :=
+    pow_le_pow_of_le_one (by norm_num) (by norm_num) (Nat.le_succ n)
+  linarith
 
 end Cv.C03L
